@@ -609,6 +609,24 @@ class FullLib(Lib):
     c_shutil_copy = c_shutil_copyfile
     c_shutil_copy2 = c_shutil_copyfile
 
+    def c_os_rmdir(self, it, p):
+        """Removing a directory: the layout relies on directories never going away (a store /
+        tag / metadata call creates the directory and then renames into it without holding any
+        lock on the directory), so this is reported as a discipline violation."""
+        did = self.path_dir(it, p)
+        it.ctx.fail("fs/directories-are-never-removed",
+                    "the code removes a store directory; concurrent calls create a directory and "
+                    "then rename a file into it without a lock on the directory",
+                    props=("C12", "C07", "C10"))
+        if it.ctx.branch(it.ctx.fresh("rmdir_ok", T.B)):
+            it.ctx.st.dirs = z3.Store(it.ctx.st.dirs, did, FALSE)
+            it.ctx.event("rmdir", dir=did)
+            return NONE
+        it.raise_("OSError")
+
+    c_os_removedirs = c_os_rmdir
+    c_shutil_rmtree = c_os_rmdir
+
     def c_os_rename(self, it, src, dst):
         self.move(it, src, dst)
         return NONE
